@@ -23,7 +23,7 @@ RULE = (
     "parameters in {0,1}, A & B equals both flags False. Non-trivial: >= 2 crossings, or overlapping boxes "
     "without crossing, or an identical segment."
 )
-MANDATORY = ["crossings>=2", "boxes-overlap-no-crossing", "identical-segment", "curved", "polygon-exact", "flags"]
+MANDATORY = ["tiny-rational", "crossings>=2", "boxes-overlap-no-crossing", "identical-segment", "curved", "polygon-exact", "flags"]
 CONSTANTS = {"min_sin_theta": 0.2, "param_tol_curved": 1e-4, "point_tol": 1e-6}
 
 
@@ -103,6 +103,8 @@ def judge(ctx, case):
     if ident:
         strata.append("identical-segment")
     strata.append("config:" + case.get("config", "?"))
+    if case.get("config", "").endswith("-tiny"):
+        strata.append("tiny-rational")
     ctx.evaluated(case, ncross >= 2 or boxes_overlap_no_cross or bool(ident), strata)
     where = "polygon" if polygon else "curved"
     try:
@@ -276,7 +278,14 @@ def pair_cases(draw, curved):
         if nk in ("int", "mixed"):
             off = (float(round(off[0])), float(round(off[1])))
         b = draw(S.star_curve(nk, off, rb[0], rb[1], (3, 7), deg, draw(st.booleans())))
-    return {"a": a, "b": b, "config": config}
+    out = {"a": a, "b": b, "config": config}
+    if not curved and nk in ("int", "frac") and draw(st.integers(0, 3)) == 0:
+        # the same exact drawing in millimetres: edges of ~1e-3 units
+        f = F(1, 400 * int(R))
+        out["a"] = rg.curve_map(lib.tup(a), lambda p: (p[0] * f, p[1] * f))
+        out["b"] = rg.curve_map(lib.tup(b), lambda p: (p[0] * f, p[1] * f))
+        out["config"] = config + "-tiny"
+    return out
 
 
 def parts(tier):
